@@ -240,6 +240,25 @@ def check(an: Analysis) -> None:
     if n_sites < 6:
         raise AnalysisError(f"C05.6: only {n_sites} get_args call sites found (confirmed: 9)")
 
+    # ------------------------------------------------------------------ C05.13 a parametrised type alias binds its parameters to the arguments it was given
+    ob = an.ob("C05.13", "K5", "when the origin of a generic alias is a TypeAliasType (frozenlist[int], Pairs[T]) the alias value is resolved with type parameters that include the alias' own arguments (get_args of the alias); with the enclosing class' parameters alone every alias parameter falls back to its bound / Any and the elements are not validated", [RES])
+    drf = Deps(prog, rf)
+    n_alias = 0
+    for c in [c for c in rf.own_nodes() if isinstance(c, ast.Call) and an.callee(rf, c) == rf.qualname and c.args]:
+        a0 = unwrap(c.args[0])
+        if not (isinstance(a0, ast.Attribute) and a0.attr == "__value__"):
+            continue
+        # is the alias object a capture of `match get_origin(<generic alias>)` ?
+        if not _bound_from_origin(rf, a0.value, ann_param):
+            continue
+        n_alias += 1
+        ob.inst(rf, c)
+        tp = next((k.value for k in c.keywords if k.arg == "type_parameters"), None)
+        if tp is None or "call:typing.get_args" not in drf.of(tp):
+            ob.fail(rf, c, "the value of a parametrised type alias is resolved without the arguments the alias was given: its parameters resolve to their bound / Any, so e.g. `items: frozenlist[int]` accepts ('a', 'b')")
+    if n_alias == 0:
+        ob.missing(rf, None, "the resolution of parametrised type aliases (origin is a TypeAliasType) was not found")
+
     # ------------------------------------------------------------------ C05.7 __class_getitem__ arity
     ob = an.ob("C05.7", "K5 arity", "every explicit .__class_getitem__(...) call passes exactly one positional argument (State.__class_getitem__ and typing.Generic take a single parameter; several generic arguments travel as one tuple)")
     n_sites = 0
